@@ -50,7 +50,9 @@ def kind_of(e):
         return None if t in (None,) else t
     if k == "or":
         a, b = kind_of(e[1]), kind_of(e[2])
-        if b in (None, "nil", "bool"):
+        if b == "nil":
+            return a          # `(x or nil)` is x (literal-only: the type checker only takes it when x is itself nil-like)
+        if b in (None, "bool"):
             return None
         if a == "nil" or a == b:
             return b
@@ -123,6 +125,11 @@ def render(e, decls=None, prefix="v", nilkind="int"):
         return "(get %s)" % render(e[1], decls, prefix, nilkind)
     if k == "or":
         nk = kind_of(e[2]) or "int"
+        if decls is not None and kind_of(e[2]) == "nil":
+            # a nil FALLBACK cannot be spelled with variables (the fallback of `or` must not be optional): `(x or nil)` is x
+            return render(e[1], decls, prefix, nilkind)
+        if nk == "nil":
+            nk = nilkind
         return "((%s) or %s)" % (render(e[1], decls, prefix, nk), render(e[2], decls, prefix, nilkind))
     return "(%s %s %s)" % (render(e[2], decls, prefix, nilkind), e[1], render(e[3], decls, prefix, nilkind))
 
@@ -304,6 +311,12 @@ def depth1(leaves):
         out.append(("or", ("nil",), a))
         out.append(("or", a, a))
     out.append(("get", ("nil",)))
+    # `or` whose LEFT operand is itself a literal-only `or`: nil without being the keyword (`(nil or nil)`), or a value
+    NIL = ("nil",)
+    for a in leaves[:6]:
+        out += [("or", ("or", NIL, NIL), a), ("or", ("or", ("or", NIL, NIL), NIL), a), ("or", ("or", NIL, a), leaves[1]), ("or", NIL, ("or", NIL, a)),
+                ("or", ("or", NIL, NIL), ("bin", "+", a, a)) if a[1] in ("int", "float", "bigint") else ("or", ("or", NIL, NIL), a),
+                ("get", ("or", ("or", NIL, NIL), a))]
     return out
 
 
